@@ -22,27 +22,27 @@ checks = {
   "deterministic simulation (seeded scheduler, simulated pool/map-order seams, callback faults) with a snapshot invariant checked after every operation",
   "trusts the type-tagged deep printer used for snapshots; documents on which nothing but retrieval happens"),
 "C05": ("exploration",
-  "Seeded simulation over call histories: each task parses a generated path and calls it on a family of documents built to flip filter outcomes, interleaved with unrelated Parse/Retrieve that recycle pooled buffers (pool policy LIFO/FIFO/random/fresh/drop decided by the simulator), scribbling over and appending to earlier results; every call is compared with a freshly parsed reference on a copy of the document, earlier result slices are re-read after every later operation.",
-  "deterministic simulation over call histories with a reference execution per call (fresh parse, fresh pool, ascending maps)",
+  "Seeded simulation over call histories: each task parses a generated path and calls it on a family of documents built to flip filter outcomes, interleaved with unrelated Parse/Retrieve that recycle pooled buffers (pool policy LIFO/FIFO/random/fresh/drop decided by the simulator), scribbling over and appending to earlier results, overwriting containers that results handed over, editing documents (and undecoded message buffers) in place; every call is compared with a freshly parsed reference on a copy of the document and with every earlier call of the same function on an equal document, earlier result slices are re-read after every later operation; R-order: outcome digests of runs must not depend on what the worker process executed before (one process in sixteen is long-lived).",
+  "deterministic simulation over call histories with a reference execution per call (fresh parse, fresh pool, ascending maps), an equal-document memo across the history, and run-order independence of outcome digests",
   "the reference is the same library parsed afresh (implementation-vs-implementation): a defect that affects a fresh Retrieve identically is invisible here"),
 "C06": ("exploration",
-  "Race-detector build executed under the deterministic scheduler, whose hand-off is invisible to the detector: its happens-before graph holds only the library's own synchronisation, so conflicting accesses of two tasks are reported whatever order the simulator ran them in. 2-16 tasks; shared unevaluated parsed functions, shared documents, Parse under contention with failing paths and injected panics; plus run-alone equality of every outcome and deadlock/step-budget progress checks.",
-  "deterministic simulation with the Go race detector as invariant monitor, run-alone equality and bounded-progress oracles",
+  "Race-detector build executed under the deterministic scheduler, whose hand-off is invisible to the detector: its happens-before graph holds only the library's own synchronisation, so conflicting accesses of two tasks are reported whatever order the simulator ran them in. 2-16 tasks; shared unevaluated parsed functions, shared documents, Parse under contention with failing paths and injected panics; plus run-alone equality of every outcome, deadlock detection, and a step budget per operation that is a verdict only if the same operation is cheap when it runs alone; cold-start processes in which the first Parse calls of the process race.",
+  "deterministic simulation with the Go race detector as invariant monitor, run-alone equality and bounded-progress (relative to the run-alone cost) oracles",
   "Go race detector (shadow-memory window); amd64 TSO for the plain-memory hand-off; race freedom only for operation pairs that were executed together"),
 "C07": ("exploration",
-  "The simulator owns Go's map iteration order and the contents of recycled key buffers: each (path, document) is evaluated repeatedly under descending/rotated/permuted map orders on independently built equal maps, interleaved with traversals of other maps under LIFO pool reuse; all sequences must equal the ascending/fresh-pool one and, for the families the property spells out, a small reference model.",
+  "The simulator owns Go's map iteration order and the contents of recycled key buffers: each (path, document) is evaluated repeatedly under descending/rotated/permuted map orders on independently built equal maps, interleaved with traversals of other maps under LIFO pool reuse; all sequences must equal the ascending/fresh-pool one and, for the families the property spells out, a small reference model (also with a filter function behind the path that fails for some of the values); a document object kept and edited in place by the caller.",
   "deterministic simulation with adversarial map-iteration order and pool reuse; reference model for the spelled-out order",
-  "reference model covers name, multi-name, wildcard, index union, always-true filter, recursive descent"),
+  "reference model covers name, multi-name, wildcard, index union (with wildcards, Python slices, runs of consecutive indexes), always-true filter, recursive descent"),
 "C13": ("exploration",
-  "Histories of Set/Get/direct update/re-retrieval executed against the real document and a reference model step by step; locations are derived independently (plain-mode retrieval located by identity).",
+  "Histories of Set/Get/direct update/re-retrieval executed against the real document and a reference model step by step; locations are derived independently (plain-mode retrieval located by identity, or the reference model of C07 for its path families); user functions that return Accessors of their own or panic half-way; another number of accessors than the path selects in plain mode is a verdict.",
   "deterministic simulation of operation histories against a reference model (document copy + accessor locations)",
   "single caller (accessors are not promised goroutine-safe); sentinels are leaves; positional correspondence between plain and accessor results"),
 "C14": ("fault_enumeration",
   "For each generated case (prefix of every step kind + 1-3 functions, accessor mode on/off, 1-4 tasks sharing the function, callbacks yielding/re-entering) ALL subsets of failing callback calls are executed when the fault-free run makes <= 8 calls; every run's per-function call log, result and error kind are compared with a 40-line protocol model applied to what the prefix alone selects.",
   "fault enumeration over user-callback failures inside a deterministic simulation, judged by a call-protocol model",
-  "exhaustive over fault subsets per case, cases sampled; prefix values come from the library itself"),
+  "exhaustive over fault subsets per case, cases sampled; prefix values come from the reference model of C07 in a third of the cases and from the library itself otherwise"),
 "C19": ("exploration",
-  "Histories of Parse/Retrieve calls (1-4 tasks, failing paths in every parser action, injected panics at drawn call sites inside Parse, one Config value reused and modified) where every call's full outcome must equal the outcome of the same call made as the first call of a fresh OS process of the pristine build.",
+  "Histories of Parse/Retrieve calls (1-4 tasks, failing paths in every parser action, injected panics at drawn call sites inside Parse, one Config value reused and modified, Config struct copies, items evaluated through Retrieve, user functions re-entering the calling function, undecoded messages in a reused buffer) where every call's full outcome must equal the outcome of the same call made as the first call of a fresh OS process of the pristine build.",
   "deterministic simulation over Parse histories with crash-point (panic) injection, judged against fresh-process executions of the pristine build",
   "bounded corpus of (path, config) items per invocation; instrumented-vs-pristine agreement checked item by item"),
 }
